@@ -4,7 +4,10 @@ import (
 	"encoding/json"
 	"fmt"
 	"math/rand"
+	"os"
+	"sort"
 	"strings"
+	"time"
 
 	"google.golang.org/protobuf/proto"
 	"google.golang.org/protobuf/reflect/protoreflect"
@@ -91,6 +94,68 @@ type bodyOpt struct {
 	trailing bool
 	pad      int
 	style    int // JSON string spelling (jsonQuote)
+	// gzip Content-Encoding: member layout of the encoded body.
+	//   "" single member | per-message | random (g.rng cuts, also inside
+	//   messages and length prefixes) | empty-between | empty-end | empty-start
+	members string
+	rng     *rand.Rand
+}
+
+// gzipMembers encodes stream as a sequence of gzip members (RFC 1952 2.2)
+// starting a new member at each cut; an empty member is inserted where asked.
+func gzipMembers(stream []byte, cuts []int, empty string) []byte {
+	var out []byte
+	if empty == "empty-start" {
+		out = append(out, wire.Gzip(nil)...)
+	}
+	prev := 0
+	parts := 0
+	for _, c := range append(append([]int(nil), cuts...), len(stream)) {
+		if c < prev || c > len(stream) || c == prev && parts > 0 {
+			continue
+		}
+		if parts > 0 && empty == "empty-between" {
+			out = append(out, wire.Gzip(nil)...)
+		}
+		out = append(out, wire.Gzip(stream[prev:c])...)
+		parts++
+		prev = c
+	}
+	if empty == "empty-end" {
+		out = append(out, wire.Gzip(nil)...)
+	}
+	return out
+}
+
+func memberCuts(o bodyOpt, stream []byte, segs []Seg) (cuts []int, empty string) {
+	switch o.members {
+	case "per-message":
+		for _, s := range segs {
+			cuts = append(cuts, s.End)
+		}
+	case "random":
+		n := len(stream)
+		for i := 0; n > 1 && i < 1+o.rng.Intn(4); i++ {
+			cuts = append(cuts, 1+o.rng.Intn(n-1))
+		}
+		// also right inside the framing of a message
+		if len(segs) > 1 {
+			s := segs[1+o.rng.Intn(len(segs)-1)]
+			cuts = append(cuts, s.Start+1)
+		}
+		sort.Ints(cuts)
+	case "empty-between", "empty-end", "empty-start":
+		empty = o.members
+		for i, s := range segs {
+			if i%2 == 0 {
+				cuts = append(cuts, s.End)
+			}
+		}
+		if len(segs) == 0 && len(stream) > 1 {
+			cuts = append(cuts, len(stream)/2)
+		}
+	}
+	return cuts, empty
 }
 
 // build fills Body and Segs of a message-stream case from its Msgs.
@@ -122,7 +187,12 @@ func build(c *Case, o bodyOpt) {
 	}
 	switch {
 	case c.CE == "gzip":
-		stream = wire.Gzip(stream)
+		if c.isUpload() && o.members == "per-message" {
+			o.members = "random"
+		}
+		cuts, empty := memberCuts(o, stream, segs)
+		stream = gzipMembers(stream, cuts, empty)
+		c.Members = o.members
 	case c.T == "grpc-web-text":
 		stream = b64(stream)
 	}
@@ -193,6 +263,12 @@ func shapeKey(c *Case, ex expect, outcome string) string {
 	if c.Conc > 1 {
 		shape += "+concurrent"
 	}
+	if c.Members != "" {
+		shape += "+gzip-members-" + c.Members
+	}
+	if c.SrvOpt != "" || c.PaceMs > 0 {
+		shape += fmt.Sprintf("+srv-%s/paced=%v", c.SrvOpt, c.PaceMs > 0)
+	}
 	return fmt.Sprintf("%s/%s/%s/%s/msgs=%d/%s/%s/%s/%s", c.Lane, c.T, c.codecName(), shape, n, c.Sched, style, ex.class, outcome)
 }
 
@@ -219,6 +295,14 @@ func (g *gen) account(c *Case, vs []viol, outcome string) {
 	}
 	if r.SampleN() < 6 && g.rng.Intn(3000) == 0 {
 		r.Sample(map[string]any{"lane": c.Lane, "transport": c.T, "codec": c.codecName(), "shape": c.Shape, "msgs": len(c.Msgs), "body_len": len(c.Body), "cuts": c.Cuts, "eof_with_data": c.EOFWithData, "trunc": c.Trunc, "sched": c.Sched, "outcome": outcome})
+	}
+}
+
+func (g *gen) timed(name string, f func()) {
+	t0 := time.Now()
+	f()
+	if debug {
+		fmt.Fprintf(os.Stderr, "lane %s: %v\n", name, time.Since(t0))
 	}
 }
 
@@ -331,14 +415,15 @@ func RunC06(r *mon.Run) {
 	defer e.close()
 	g := &gen{r: r, e: e, rng: r.Rand("stream"), withheldSeen: map[string]bool{}}
 
-	g.laneSchedules()
-	g.laneUploads(limits)
-	g.laneTruncation()
-	g.laneResponses()
-	g.laneInterleave()
-	g.laneJSONStrings()
-	g.laneReal()
-	g.laneConcurrent()
+	g.timed("laneSchedules", func() { g.laneSchedules() })
+	g.timed("laneUploads", func() { g.laneUploads(limits) })
+	g.timed("laneTruncation", func() { g.laneTruncation() })
+	g.timed("laneResponses", func() { g.laneResponses() })
+	g.timed("laneInterleave", func() { g.laneInterleave() })
+	g.timed("laneJSONStrings", func() { g.laneJSONStrings() })
+	g.timed("laneGzipMembers", func() { g.laneGzipMembers() })
+	g.timed("laneReal", func() { g.laneReal() })
+	g.timed("laneConcurrent", func() { g.laneConcurrent() })
 
 	r.Set("exhaustive_partition_bound_bytes", r.Pick(8, 12))
 	r.Set("exhaustive_truncation_bound_bytes", r.Pick(24, 64))
@@ -512,6 +597,56 @@ func (g *gen) laneInterleave() {
 				c := &Case{T: "http", Codec: "httpbody", Shape: "upbidi", Limit: L, Echo: true, EchoMode: md.echo, EchoEvery: md.every, Interfere: md.interfere, Trunc: -1, Msgs: [][]byte{prf(g.rng, n)}}
 				build(c, bodyOpt{})
 				g.sweepSchedules(c, 0, samples)
+			}
+		}
+	}
+}
+
+// laneGzipMembers: Content-Encoding: gzip request bodies made of several
+// gzip members (one per message, cut at random offsets incl. inside a message
+// or a length prefix, empty members), under the usual read schedules.
+func (g *gen) laneGzipMembers() {
+	r := g.r
+	samples := r.Pick(2, 6)
+	layouts := []string{"per-message", "random", "empty-between", "empty-end", "empty-start"}
+	seqs := [][]string{{"T", "T"}, {"T", "E", "D9"}, {"D130", "T", "X"}, {"E", "E", "E"}, {"H0", "D40", "I9", "T"}}
+	if r.Thorough() {
+		seqs = append(seqs, []string{"T"}, []string{"D300", "D5", "D126", "E", "T", "D1"}, []string{"X", "H4", "H12"})
+	}
+	idx := 0
+	for _, tc := range []tcombo{{"http", "json", "gzip"}, {"http", "proto", "gzip"}} {
+		for si, kinds := range seqs {
+			for _, lay := range layouts {
+				reps := r.Pick(1, 3)
+				if lay != "random" {
+					reps = 1
+				}
+				for rep := 0; rep < reps; rep++ {
+					idx++
+					shape := []string{"cs", "bidi"}[idx%2]
+					c := &Case{T: tc.T, Codec: tc.Codec, CE: tc.CE, Shape: shape, Echo: shape == "bidi", EchoMode: []string{"", "long"}[idx/2%2], Trunc: -1}
+					c.Msgs = g.msgs(kinds, tc, 0)
+					if shape == "cs" {
+						c.Reply = [][]byte{g.reply(len(kinds))}
+					}
+					pad := 0
+					if tc.Codec == "proto" && si%2 == 1 {
+						pad = 2 // multi-byte length prefixes to cut through
+					}
+					build(c, bodyOpt{sep: []string{"", "\n"}[idx%2], pad: pad, members: lay, rng: g.rng})
+					g.sweepSchedules(c, 0, samples)
+				}
+			}
+		}
+	}
+	for _, L := range []int{7, 100} {
+		for _, n := range []int{1, L, 2*L + 1, 4 * L} {
+			for _, lay := range layouts {
+				for _, mode := range []string{"upload", "upbidi"} {
+					c := &Case{T: "http", Codec: "httpbody", CE: "gzip", Shape: mode, Limit: L, Echo: mode == "upbidi", EchoMode: "long", Trunc: -1, Msgs: [][]byte{prf(g.rng, n)}, Reply: [][]byte{{}}}
+					build(c, bodyOpt{members: lay, rng: g.rng})
+					g.sweepSchedules(c, 0, samples)
+				}
 			}
 		}
 	}
